@@ -138,6 +138,26 @@ func c1ClassifyRegion(src string) string {
 			}
 		case *ast.FuncLit:
 			c1ClassifyReturns(x.Type, x.Body, set)
+			// a function literal that compares its variadic parameter with nil
+			if ps := x.Type.Params; ps != nil && len(ps.List) > 0 {
+				last := ps.List[len(ps.List)-1]
+				if _, ok := last.Type.(*ast.Ellipsis); ok {
+					for _, nm := range last.Names {
+						ast.Inspect(x.Body, func(m ast.Node) bool {
+							if be, ok := m.(*ast.BinaryExpr); ok && (be.Op == token.EQL || be.Op == token.NEQ) {
+								for _, pair := range [][2]ast.Expr{{be.X, be.Y}, {be.Y, be.X}} {
+									a, aok := c1Unparen(pair[0]).(*ast.Ident)
+									b, bok := c1Unparen(pair[1]).(*ast.Ident)
+									if aok && bok && a.Name == nm.Name && b.Name == "nil" {
+										set("variadic-lit-nil")
+									}
+								}
+							}
+							return true
+						})
+					}
+				}
+			}
 		case *ast.SwitchStmt:
 			if x.Init != nil && x.Tag != nil {
 				switch c1Unparen(x.Tag).(type) {
